@@ -106,10 +106,10 @@ Mixed4Alphabet ==
       SetPhase(F1, Addr("a")), Fence(<<>>), Reset(Some(1)) }
 Alphabet == CASE Alpha = "mem" -> MemAlphabet [] Alpha = "rf" -> RfAlphabet [] Alpha = "mixed" -> MixedAlphabet
               [] Alpha = "mem4" -> Mem4Alphabet [] Alpha = "rf4" -> Rf4Alphabet [] Alpha = "mixed4" -> Mixed4Alphabet
-Terminators == CASE Alpha = "mem"   -> {<<>>, <<HaltI>>, <<JumpWhen(Ref("a", 0))>>, <<JumpUnless(Ref("b", 0))>>}
+Terminators == CASE Alpha = "mem"   -> {<<>>, <<JumpWhen(Ref("a", 0))>>, <<JumpUnless(Ref("b", 0))>>}
                  [] Alpha = "rf"    -> {<<>>, <<JumpI>>}
                  [] Alpha = "mixed" -> {<<>>, <<JumpI>>, <<JumpWhen(Ref("a", 0))>>}
-                 [] Alpha = "mem4"  -> {<<>>, <<JumpWhen(Ref("a", 0))>>}
+                 [] Alpha = "mem4"  -> {<<HaltI>>, <<JumpWhen(Ref("a", 0))>>}
                  [] Alpha = "rf4"   -> {<<>>}
                  [] Alpha = "mixed4" -> {<<>>, <<JumpWhen(Ref("a", 0))>>}
 
